@@ -3,7 +3,8 @@ C16 — export then import returns the same data; files are never clobbered unas
 Executable model, core Lean only (no Mathlib).  Transcribed from
 
   menpo/io/output/landmark.py   ljson_exporter, pts_exporter
-  menpo/io/input/landmark.py    ljson_importer, _parse_ljson_v3, _ljson_parse_null_values, pts_importer
+  menpo/io/input/landmark.py    ljson_importer, _parse_ljson_v1, _parse_ljson_v2, _parse_ljson_v3,
+                                _ljson_parse_null_values, pts_importer
   menpo/shape/{pointcloud,graph,labelled}.py   tojson; _convert_edges_to_symmetric_adjacency_matrix; .edges
   menpo/image/base.py           normalize_pixels_range, denormalize_pixels_range, Image.as_PILImage
   menpo/io/input/image.py       pillow_importer (modes L / RGB)
@@ -17,6 +18,8 @@ Strings that the theorems quantify over are `List Char` (structural recursion, k
 driver converts with `String.toList`.
 -/
 
+import MenpoModel.Core.C16Pix
+
 namespace MenpoModel.C16
 
 /-! ## 1. LJSON: `tojson` + `ljson_exporter` → JSON value tree → `ljson_importer` -/
@@ -24,6 +27,7 @@ namespace MenpoModel.C16
 /-- keys of the fixed LJSON schema; group names are `user` keys -/
 inductive Key where
   | version | groups | labels | landmarks | points | connectivity | label | mask
+  | point                       -- LJSON v1 only: `{"point": [y, x]}`
   | user (s : String)
   deriving DecidableEq, Repr
 
@@ -98,14 +102,17 @@ def encodeDoc (gs : List (String × Shape)) : Json :=
 
 inductive Err where
   | unknownVersion     -- ValueError: version not 1, 2 or 3
-  | legacyVersion      -- versions 1 and 2 have parsers of their own, not modelled (never written by the exporter)
   | emptyPoints        -- IndexError: `len(points_list[0])` on an empty point list
+  | edgeOutOfRange     -- ValueError of `_convert_edges_to_symmetric_adjacency_matrix` (v1 / v2 parsers)
+  | emptyLabels        -- ValueError "Empty label sets are not permitted" (v2 parser: connectivity but no label)
+  | unlabelledPoint    -- ValueError "Every point in the landmark pointcloud must be labelled" (v1 / v2 parsers)
   | malformed          -- KeyError / TypeError / ValueError / IndexError on a tree the exporter never writes
   deriving DecidableEq, Repr
 
 inductive Cls where
   | pug    -- PointUndirectedGraph
   | lpug   -- LabelledPointUndirectedGraph
+  | pc     -- PointCloud (LJSON v2 without connectivity and labels)
   deriving DecidableEq, Repr
 
 structure Imported where
@@ -232,7 +239,122 @@ def decodeGroups : List (Key × Json) → Except Err (List (String × Imported))
       | .ok r => .ok ((name, i) :: r)
   | _ :: _ => .error .malformed
 
-/-- `ljson_importer`: version dispatch, then `_parse_ljson_v3` -/
+/-! ### the parsers of the two older format versions (import only: the exporter writes version 3) -/
+
+/-- `OrderedDict.__setitem__`: a repeated label keeps its first position and takes the last mask -/
+def odInsert (d : List (String × List Bool)) (k : String) (v : List Bool) : List (String × List Bool) :=
+  if d.any (fun p => p.1 == k) then d.map fun p => if p.1 == k then (k, v) else p else d ++ [(k, v)]
+
+def odFromList (l : List (String × List Bool)) : List (String × List Bool) :=
+  l.foldl (fun d p => odInsert d p.1 p.2) []
+
+/-- every point carries at least one label (`_verify_all_labels_masked`) -/
+def allLabelled (n : Nat) (labels : List (String × List Bool)) : Bool :=
+  (List.range n).all fun i => labels.any fun l => l.2.getD i false
+
+/-- `LabelledPointUndirectedGraph.init_from_edges(points, connectivity, labels_to_masks)` as the two older parsers
+call it: adjacency conversion first (edge indices inside the point set), then the constructor's label checks -/
+def mkLpug (pts : List (List (Option Rat))) (c : List (Nat × Nat)) (labels : List (String × List Bool)) :
+    Except Err Imported :=
+  let n := pts.length
+  if !(c.all fun e => e.1 < n && e.2 < n) then .error .edgeOutOfRange
+  else if labels.isEmpty then .error .emptyLabels
+  else if !(allLabelled n labels) then .error .unlabelledPoint
+  else .ok { cls := .lpug, points := pts, edges := symEdges n c, labels := labels }
+
+/-- `_ljson_parse_null_values` on rows that are already lists of numbers / nulls -/
+def reshapeRows : List (List (Option Rat)) → Except Err (List (List (Option Rat)))
+  | [] => .error .emptyPoints
+  | r0 :: rs =>
+    let flat := (r0 :: rs).flatten
+    let d := r0.length
+    if d = 0 ∨ flat.length % d ≠ 0 then .error .malformed
+    else .ok (chunksOf d (flat.length + 1) flat)
+
+/-- an optional `connectivity` entry: missing or `null` is "no edges" -/
+def decConn (cj : Option Json) : Except Err (Option (List (Nat × Nat))) :=
+  match cj with
+  | none => .ok none
+  | some .null => .ok none
+  | some j => match decArr j with
+    | .error e => .error e
+    | .ok cs => match mapE decPair cs with
+      | .error e => .error e
+      | .ok c => .ok (some c)
+
+/-- `_parse_ljson_v2`: one group called `LJSON`; a plain `PointCloud` when there is neither connectivity nor a
+label, otherwise a `LabelledPointUndirectedGraph` (whose constructor insists on a label for every point) -/
+def decodeV2 (j : Json) : Except Err (List (String × Imported)) :=
+  match j.get .landmarks, j.get .labels with
+  | some lm, some labs => match lm.get .points with
+    | none => .error .malformed
+    | some pj => match decPoints pj with
+      | .error e => .error e
+      | .ok pts => match decConn (lm.get .connectivity), decArr labs with
+        | .error e, _ => .error e
+        | _, .error e => .error e
+        | .ok conn, .ok ls =>
+          if conn.isNone ∧ ls.isEmpty then
+            .ok [("LJSON", { cls := .pc, points := pts, edges := [], labels := [] })]
+          else match mapE (decLabel pts.length) ls with
+            | .error e => .error e
+            | .ok labels => match mkLpug pts (conn.getD []) (odFromList labels) with
+              | .error e => .error e
+              | .ok i => .ok [("LJSON", i)]
+  | _, _ => .error .malformed
+
+/-- `mask[slice(a, b)] = True` on `np.zeros(n, dtype=bool)` -/
+def sliceMask (n a b : Nat) : List Bool := (List.range n).map fun i => a ≤ i && i < b
+
+/-- what `_parse_ljson_v1` has gathered after some groups -/
+structure V1Acc where
+  offset : Nat
+  rows : List (List (Option Rat))
+  slices : List (String × Nat × Nat)
+  conn : List (Nat × Nat)
+
+def decV1Point (p : Json) : Except Err (List (Option Rat)) :=
+  match p.get .point with
+  | some r => decRow r
+  | none => .error .malformed
+
+/-- one pass of the loop over `lms_dict["groups"]`: the group's points are appended, its label covers the slice
+`offset … offset + len(landmarks)`, its (relative) connectivity is shifted by the offset -/
+def v1Group (acc : V1Acc) (g : Json) : Except Err V1Acc :=
+  match g.get .landmarks, g.get .label with
+  | some lms, some lab => match decArr lms, decStr lab, decConn (g.get .connectivity) with
+    | .ok ps, .ok name, .ok conn => match mapE decV1Point ps with
+      | .error e => .error e
+      | .ok rows =>
+        .ok { offset := acc.offset + ps.length, rows := acc.rows ++ rows,
+              slices := acc.slices ++ [(name, acc.offset, acc.offset + ps.length)],
+              conn := acc.conn ++ (conn.getD []).map fun e => (e.1 + acc.offset, e.2 + acc.offset) }
+    | .error e, _, _ => .error e
+    | _, .error e, _ => .error e
+    | _, _, .error e => .error e
+  | _, _ => .error .malformed
+
+def v1Groups : V1Acc → List Json → Except Err V1Acc
+  | acc, [] => .ok acc
+  | acc, g :: t => match v1Group acc g with
+    | .error e => .error e
+    | .ok acc' => v1Groups acc' t
+
+/-- `_parse_ljson_v1`: all groups concatenated into ONE labelled graph called `LJSON`, one label per group -/
+def decodeV1 (j : Json) : Except Err (List (String × Imported)) :=
+  match j.get .groups with
+  | some (.arr gs) => match v1Groups ⟨0, [], [], []⟩ gs with
+    | .error e => .error e
+    | .ok acc => match reshapeRows acc.rows with
+      | .error e => .error e
+      | .ok pts =>
+        let labels := odFromList (acc.slices.map fun s => (s.1, sliceMask pts.length s.2.1 s.2.2))
+        match mkLpug pts acc.conn labels with
+        | .error e => .error e
+        | .ok i => .ok [("LJSON", i)]
+  | _ => .error .malformed
+
+/-- `ljson_importer`: version dispatch (`_ljson_parser_for_version`), then the parser of that version -/
 def decodeDoc (j : Json) : Except Err (List (String × Imported)) :=
   match j.get .version with
   | some (.num v) =>
@@ -240,7 +362,8 @@ def decodeDoc (j : Json) : Except Err (List (String × Imported)) :=
       match j.get .groups with
       | some (.obj kvs) => decodeGroups kvs
       | _ => .error .malformed
-    else if v = 1 ∨ v = 2 then .error .legacyVersion
+    else if v = 2 then decodeV2 j
+    else if v = 1 then decodeV1 j
     else .error .unknownVersion
   | _ => .error .unknownVersion
 
@@ -275,24 +398,8 @@ def ptsImport (c : Rat × Rat) : Rat × Rat := (c.2 - 1, c.1 - 1)
 
 def ptsRoundTrip (pts : List (Rat × Rat)) : List (Rat × Rat) := pts.map fun p => ptsImport (ptsExport p)
 
-/-! ## 3. Eight-bit range conversion on IEEE binary64 (Lean `Float`; `ofNat * / + - < toUInt64` reduce in
-the kernel) -/
-
-/-- `normalize_pixels_range` on uint8: `pixels * (1.0 / 255.0)` -/
-def norm8 (k : Nat) : Float := Float.ofNat k * (1.0 / 255.0)
-
-/-- `denormalize_pixels_range` as coded: `(pixels * 255.0).astype(np.uint8)` — the cast truncates -/
-def denormTrunc (x : Float) : UInt64 := (x * 255.0).toUInt64
-
-/-- round to nearest, ties to even (`np.round` / `np.rint`), for non-negative finite `y` -/
-def rintF (y : Float) : UInt64 :=
-  let n := y.toUInt64
-  let d := y - Float.ofNat n.toNat
-  if d < 0.5 then n else if d > 0.5 then n + 1
-  else if n % 2 == 0 then n else n + 1
-
-/-- the repaired conversion: `np.round(pixels * 255.0).astype(np.uint8)` -/
-def denormRound (x : Float) : UInt64 := rintF (x * 255.0)
+/-! ## 3. Eight-bit range conversion on IEEE binary64: `Core/C16Pix.lean` (a file of its own so that the kernel
+evaluation over all 256 values in `Lemmas/C16Float.lean` is rebuilt only when those definitions change) -/
 
 /-! ### float images: the quantisation in exact arithmetic (`x ∈ [0, 1]`, level = 1/255) -/
 
@@ -339,12 +446,83 @@ def normStep (st : List Comp) (c : Comp) : List Comp :=
 
 def normAbs (cs : List Comp) : Path := (cs.foldl normStep []).reverse
 
-/-- `_norm_path` for spellings without `~` and `$`: `abspath(normpath(p))` relative to `cwd`
-(a POSIX path; a leading `//` is not generated) -/
-def normPath (cwd : Path) (s : List Char) : Path :=
+/-- `os.environ` as far as `_norm_path` reads it (`HOME` among the variables) -/
+structure Env where
+  vars : List (List Char × List Char)
+  deriving Repr
+
+def Env.get (env : Env) (k : List Char) : Option (List Char) := (env.vars.find? fun p => p.1 == k).map fun p => p.2
+
+/-- `str(pathlib.Path(s))` on POSIX: empty and `.` components vanish (also a LEADING `./`), the root is `/` — or `//`
+for exactly two leading slashes —, the empty path is `.`.  Every exporter turns a `str` into a `Path` before the
+guard looks at it, so this is what `_norm_path` is handed. -/
+def pathStr (s : List Char) : List Char :=
+  let root : List Char := match s with
+    | '/' :: '/' :: '/' :: _ => ['/']
+    | '/' :: '/' :: _ => ['/', '/']
+    | '/' :: _ => ['/']
+    | _ => []
+  let parts := (splitC '/' s).filter fun c => !(c == [] || c == ['.'])
+  if root == [] && parts == [] then ['.'] else root ++ ['/'].intercalate parts
+
+def rstripSlash (h : List Char) : List Char := (h.reverse.dropWhile (· == '/')).reverse
+
+/-- `posixpath.expanduser`: only a leading `~` is special.  `~` alone (up to the first `/`) is `$HOME` without its
+trailing slashes (`/` if that leaves nothing); `~name` asks the password database — contract: the user does not exist,
+the path is returned unchanged; so is `~` when `HOME` is not set (then Python asks the password database, too). -/
+def expandUser (env : Env) (s : List Char) : List Char :=
   match s with
-  | '/' :: _ => normAbs (splitC '/' s)
-  | _ => normAbs (cwd ++ splitC '/' s)
+  | '~' :: rest =>
+    if (rest.takeWhile (· != '/')) == [] then
+      match env.get ['H', 'O', 'M', 'E'] with
+      | none => s
+      | some h =>
+        let r := rstripSlash h ++ rest
+        if r == [] then ['/'] else r
+    else s
+  | _ => s
+
+/-- `\w` under `re.ASCII` -/
+def isWordC (c : Char) : Bool := c.isAlphanum || c == '_'
+
+/-- `posixpath.expandvars`: `$name` and `${name}` are replaced when the variable is set and left alone when it is not;
+the inserted value is not scanned again; `${` without a closing brace and a `$` followed by no word character are
+ordinary text.  (`fuel` ≥ length of the string.) -/
+def expandVarsF (env : Env) : Nat → List Char → List Char
+  | 0, s => s
+  | _, [] => []
+  | f+1, '$' :: rest =>
+    match rest with
+    | '{' :: r2 =>
+      if r2.contains '}' then
+        let name := r2.takeWhile (· != '}')
+        let after := (r2.dropWhile (· != '}')).drop 1
+        match env.get name with
+        | some v => v ++ expandVarsF env f after
+        | none => '$' :: '{' :: (name ++ '}' :: expandVarsF env f after)
+      else '$' :: expandVarsF env f rest
+    | _ =>
+      let name := rest.takeWhile isWordC
+      if name == [] then '$' :: expandVarsF env f rest
+      else
+        let after := rest.dropWhile isWordC
+        match env.get name with
+        | some v => v ++ expandVarsF env f after
+        | none => '$' :: (name ++ expandVarsF env f after)
+  | f+1, c :: rest => c :: expandVarsF env f rest
+
+def expandVars (env : Env) (s : List Char) : List Char := expandVarsF env (s.length + 1) s
+
+/-- `Path(abspath(normpath(expandvars(expanduser(t)))))` for the string `t` that `str(filepath)` returns
+(a POSIX path; a result with exactly two leading slashes is not generated) -/
+def normPathRaw (env : Env) (cwd : Path) (t : List Char) : Path :=
+  let e := expandVars env (expandUser env t)
+  match e with
+  | '/' :: _ => normAbs (splitC '/' e)
+  | _ => normAbs (cwd ++ splitC '/' e)
+
+/-- `_norm_path(Path(s))`: what `_validate_filepath` checks and `_export` / `export_pickle` open -/
+def normPath (env : Env) (cwd : Path) (s : List Char) : Path := normPathRaw env cwd (pathStr s)
 
 /-- `PurePath.suffixes` (Python 3.12) of a file name -/
 def suffixes (name : List Char) : List (List Char) :=
@@ -384,33 +562,61 @@ structure Op where
   userExt : Option (List Char)    -- the `extension=` argument, already `_normalize_extension`ed
   overwrite : Bool
   content : Nat
+  asStr : Bool := false           -- the path was given as a `str` (not a `pathlib.Path`)
   deriving Repr
 
 inductive Outcome where
   | written | overwriteError | valueError
   deriving DecidableEq, Repr
 
-/-- the decision of one export, as a function of the *normalised* path:
-`_validate_filepath` first (OverwriteError), then `_parse_and_validate_extension` (ValueError), then the
+/-- the decision of one export, as a function of the *normalised* path `p` that is checked and the path `w` that is
+written: `_validate_filepath` first (OverwriteError), then `_parse_and_validate_extension` (ValueError), then the
 write.  `export_pickle`, `_export`, `_export_paths_only` all go through these two in this order. -/
-def exportAt (fs : FS) (p : Path) (kind : Kind) (userExt : Option (List Char)) (overwrite : Bool) (content : Nat) :
+def exportAtW (fs : FS) (p w : Path) (kind : Kind) (userExt : Option (List Char)) (overwrite : Bool) (content : Nat) :
     Outcome × FS :=
   if (fs p).isSome ∧ overwrite = false then (.overwriteError, fs)
   else match parseExt (knownExts kind) (p.getLast?.getD []) with
     | none => (.valueError, fs)
     | some e =>
       if userExt.isSome ∧ userExt ≠ some e then (.valueError, fs)
-      else (.written, fs.write p content)
+      else (.written, fs.write w content)
 
-def export1 (cwd : Path) (fs : FS) (op : Op) : Outcome × FS :=
-  exportAt fs (normPath cwd op.spelling) op.kind op.userExt op.overwrite op.content
+/-- an export that writes the path it checked -/
+def exportAt (fs : FS) (p : Path) (kind : Kind) (userExt : Option (List Char)) (overwrite : Bool) (content : Nat) :
+    Outcome × FS := exportAtW fs p p kind userExt overwrite content
+
+/-- one export: checked path = written path (`_export`, `export_pickle`, and `_export_paths_only` since adfd5d8) -/
+def export1 (env : Env) (cwd : Path) (fs : FS) (op : Op) : Outcome × FS :=
+  exportAt fs (normPath env cwd op.spelling) op.kind op.userExt op.overwrite op.content
+
+/-- the path an export wrote AS CODED UNTIL /repo commit adfd5d8 ("fix: export_video checked the overwrite guard on one
+spelling of a str path and wrote to another"): `_export_paths_only` (the video exporter) checked
+`_norm_path(Path(file_path))` but handed its exporter `_norm_path(file_path)` of the argument as given — for a `str`
+that is the raw spelling, which `pathlib` has not cleaned (`./~/v.mp4` stays `./~/v.mp4`, whereas `Path('./~/v.mp4')`
+is `~/v.mp4` = `$HOME/v.mp4`).  Since the fix the `str` is converted first and the exporter writes what was checked
+(`export1`).  Both variants are kept: the driver reports both, the harness records which one the tree under test is. -/
+def writePathCoded (env : Env) (cwd : Path) (op : Op) : Path :=
+  if op.kind = .video ∧ op.asStr = true then normPathRaw env cwd op.spelling else normPath env cwd op.spelling
+
+def export1Coded (env : Env) (cwd : Path) (fs : FS) (op : Op) : Outcome × FS :=
+  exportAtW fs (normPath env cwd op.spelling) (writePathCoded env cwd op) op.kind op.userExt op.overwrite op.content
 
 /-- any sequence of exports -/
-def runHistory (cwd : Path) : FS → List Op → List Outcome × FS
+def runHistoryWith (step : FS → Op → Outcome × FS) : FS → List Op → List Outcome × FS
   | fs, [] => ([], fs)
   | fs, op :: ops =>
-    let r := export1 cwd fs op
-    let rest := runHistory cwd r.2 ops
+    let r := step fs op
+    let rest := runHistoryWith step r.2 ops
     (r.1 :: rest.1, rest.2)
+
+def runHistory (env : Env) (cwd : Path) : FS → List Op → List Outcome × FS
+  | fs, [] => ([], fs)
+  | fs, op :: ops =>
+    let r := export1 env cwd fs op
+    let rest := runHistory env cwd r.2 ops
+    (r.1 :: rest.1, rest.2)
+
+def runHistoryCoded (env : Env) (cwd : Path) : FS → List Op → List Outcome × FS :=
+  runHistoryWith (export1Coded env cwd)
 
 end MenpoModel.C16
